@@ -30,6 +30,7 @@ import (
 	"k8s.io/apimachinery/pkg/runtime/schema"
 	"k8s.io/apimachinery/pkg/types"
 	"k8s.io/utils/ptr"
+	"sigs.k8s.io/controller-runtime/pkg/client"
 	"sigs.k8s.io/controller-runtime/pkg/reconcile"
 
 	"github.com/crossplane/crossplane-runtime/pkg/event"
@@ -144,9 +145,35 @@ type e2e struct {
 	current      map[string]string // what the function returns in this reconcile
 	produced     map[[2]string]bool
 	fresh        bool
+	observed     []string // e2eobs: the composed resources the function was shown in the last reconcile
 }
 
-func newE2E(in *input, pt bool) *e2e {
+func newE2E(in *input, pt bool) *e2e { return newE2EWith(in, pt, false) }
+
+const (
+	ownThing, ownSecret = "own-thing", "own-conn"
+	frnThing, frnSecret = "foreign-thing", "foreign-conn"
+	foreignVal          = "v9" // the value of every key of the foreign resource's connection secret
+)
+
+// composedRef puts a composed resource with its connection secret into the store and returns the reference to it.
+func (w *world) composedRef(name, rname, secret string, owner metav1.OwnerReference, data map[string]string) map[string]any {
+	u := &unstructured.Unstructured{Object: map[string]any{}}
+	u.SetAPIVersion("ex.org/v1")
+	u.SetKind("ComposedThing")
+	u.SetName(name)
+	u.SetAnnotations(map[string]string{"crossplane.io/composition-resource-name": rname})
+	u.SetOwnerReferences([]metav1.OwnerReference{owner})
+	_ = unstructured.SetNestedMap(u.Object, map[string]any{"name": secret, "namespace": nsX}, "spec", "writeConnectionSecretToRef")
+	w.s.Put(u)
+	w.s.Put(secretFor(nsX, secret, secIn{Exists: true, Ctrl: "none", Type: "conn", Data: data}))
+	return map[string]any{"apiVersion": "ex.org/v1", "kind": "ComposedThing", "name": name}
+}
+
+// newE2EWith: obs = family e2eobs. The XR references a composed resource of its own and one that another XR
+// controls (both with connection secrets); the function behaves like function-patch-and-transform: it keeps every
+// observed composed resource desired and passes the observed connection details on to the XR's.
+func newE2EWith(in *input, pt, obs bool) *e2e {
 	w := newWorld(in)
 	w.s.Namespaced(claimGVK.GroupKind())
 	t := &e2e{w: w, in: in, produced: map[[2]string]bool{}, fresh: !in.XSec.Exists}
@@ -162,6 +189,17 @@ func newE2E(in *input, pt bool) *e2e {
 	_ = unstructured.SetNestedMap(xr.Object, map[string]any{"apiVersion": "ex.org/v1", "kind": "Thing", "namespace": nsC, "name": claimName}, "spec", "claimRef")
 	if in.XWants {
 		_ = unstructured.SetNestedMap(xr.Object, map[string]any{"name": xSecName, "namespace": nsX}, "spec", "writeConnectionSecretToRef")
+	}
+	if obs {
+		w.keys["k1"], w.keys["k2"] = true, true
+		frn := map[string]string{}
+		for k := range w.keys {
+			frn[k] = foreignVal
+		}
+		_ = unstructured.SetNestedSlice(xr.Object, []any{
+			w.composedRef(ownThing, "own", ownSecret, ownerRef("XThing", xrName, xrUID, true), in.CData),
+			w.composedRef(frnThing, "frn", frnSecret, ownerRef("XThing", "somebody-else", otherUID, true), frn),
+		}, "spec", "resourceRefs")
 	}
 	w.s.Put(xr)
 
@@ -195,8 +233,28 @@ func newE2E(in *input, pt bool) *e2e {
 	// the function: desires no composed resources and the connection details of this reconcile
 	fn := composite.FunctionRunnerFn(func(_ context.Context, _ string, req *fnv1.RunFunctionRequest) (*fnv1.RunFunctionResponse, error) {
 		xrs, _ := structpb.NewStruct(map[string]any{"apiVersion": "ex.org/v1", "kind": "XThing"})
+		cd := detailsOf(t.current)
+		des := map[string]*fnv1.Resource{}
+		if obs {
+			names := []string{}
+			for n := range req.GetObserved().GetResources() {
+				names = append(names, n)
+			}
+			sort.Strings(names)
+			t.observed = names
+			for _, n := range names {
+				r := req.GetObserved().GetResources()[n]
+				body, _ := structpb.NewStruct(map[string]any{"apiVersion": "ex.org/v1", "kind": "ComposedThing"})
+				des[n] = &fnv1.Resource{Resource: body}
+				for k, v := range r.GetConnectionDetails() {
+					if _, set := cd[k]; !set {
+						cd[k] = v
+					}
+				}
+			}
+		}
 		return &fnv1.RunFunctionResponse{Context: req.GetContext(),
-			Desired: &fnv1.State{Composite: &fnv1.Resource{Resource: xrs, ConnectionDetails: detailsOf(t.current)}}}, nil
+			Desired: &fnv1.State{Composite: &fnv1.Resource{Resource: xrs, ConnectionDetails: cd}, Resources: des}}, nil
 	})
 
 	filter := in.Filter
@@ -207,8 +265,20 @@ func newE2E(in *input, pt bool) *e2e {
 	// the production wiring of definition.Reconciler.CompositeReconcilerOptions
 	fetcher := composite.NewSecretConnectionDetailsFetcher(w.c)
 	runner := composite.NewFetchingFunctionRunner(fn, composite.NewExistingExtraResourcesFetcher(w.c))
+	// the informer cache the observer reads through first; "miss": it has not seen the composed resources yet
+	var cached client.Client = w.c
+	if obs && in.Foreign == "miss" {
+		sib := w.c.Client.Sibling("c09-cache")
+		sib.Intercept = func(cl *simapi.Call) simapi.Decision {
+			if cl.Verb == "get" && cl.Key.Kind == "ComposedThing" {
+				return simapi.CacheMiss
+			}
+			return simapi.Proceed
+		}
+		cached = sib
+	}
 	fc := composite.NewFunctionComposer(w.c, w.c, runner,
-		composite.WithComposedResourceObserver(composite.NewExistingComposedResourceObserver(w.c, w.c, fetcher)),
+		composite.WithComposedResourceObserver(composite.NewExistingComposedResourceObserver(cached, w.c, fetcher)),
 		composite.WithCompositeConnectionDetailsFetcher(fetcher))
 	ptc := composite.NewPTComposer(w.c, w.c, composite.WithComposedConnectionDetailsFetcher(fetcher))
 	t.xrRec = composite.NewReconciler(w.c, w.c, resource.CompositeKind(xrGVK),
@@ -276,6 +346,10 @@ func (t *e2e) step(leg string, details map[string]string, r *reached, reason str
 		details = handed
 		t.produce(handed)
 	}
+	if details == nil && !withExtract {
+		details = atomsOf(r.details) // e2eobs: what the composition handed to the publisher
+		w.see(r.details)
+	}
 	o := w.obs(l, details, t.in.Filter, t.in.XWants, t.in.CWants, pre, post, r.published, errClass(r.err))
 	o["fresh"], o["produced"] = t.fresh && leg == "publish", t.producedOut()
 	// an error of the publisher / propagator must come out of the reconciler as a Warning event (or a failed reconcile)
@@ -316,6 +390,23 @@ func runE2E(in *input) []map[string]any {
 		u.Object["data"] = m["data"]
 	})
 	t.cmStep()
+	return t.out
+}
+
+// runE2EObs: two XR reconciles. What the composition produces for this XR: the function's own details and the
+// connection details of the composed resource the XR controls - never those of the resource another XR controls.
+func runE2EObs(in *input) []map[string]any {
+	t := newE2EWith(in, false, true)
+	for _, d := range []map[string]string{in.Details, in.Details2} {
+		t.current = d
+		t.produce(d)
+		t.produce(in.CData)
+		t.step("publish", nil, &t.pubR, "PublishConnectionSecret", false, func() error {
+			_, err := t.xrRec.Reconcile(context.Background(), reconcile.Request{NamespacedName: types.NamespacedName{Name: xrName}})
+			return err
+		})
+		t.out[len(t.out)-1]["observed"] = strsAny(t.observed)
+	}
 	return t.out
 }
 
